@@ -2,18 +2,21 @@
 import ast
 from pyvc import front, lemma
 
-from shell import replayers
+from shell import replayers, c14
 ID = "C14"
 LEVEL = "proof"
 FUNCTIONS = ["LimitOrderBook.mid_price", "LimitOrderBook.acq_price", "LimitOrderBook.liq_price", "LimitOrderBook.update",
              "LimitOrderBook.terminate", "Exchange.__getitem__", "Exchange.process_EventNBBO",
              "Exchange.process_EventContractDiscontinued"]
+SHELL = [c14.order_book]
 LEVEL_TEXT = ("Deductive: the exchange is a total map from book keys to (bid, ask, sizes, time, is_alive, six ghost history "
               "sequences). process_EventNBBO is proved to install exactly the event's quote in the book of the event's contract "
               "when that book is alive, to leave a dead book unchanged, to append the quote to every history column at the old "
               "length, and to leave every other key untouched (pointwise frame); discontinuation is proved to make the book dead "
               "and price-less with its history preserved; no operation revives a dead book; purchases price at the ask, sales at "
-              "the bid, flat at the mid; a key resolves through static hashing (a chain's lead contract).")
+              "the bid, flat at the mid; a key resolves through static hashing (a chain's lead contract). Bounded shell (added): random "
+              "interleavings of quotes, discontinuations, queries and clock moves across roll instants (also backwards) over assets, a string "
+              "key, two instances of an ES chain and its contracts against a reference book keyed by the contract each key denotes.")
 EXPLANATION = LEVEL_TEXT
 NOT_DEDUCTIVE = ["the conclusion for arbitrary interleavings is an induction over the event sequence (A10) from the per-event "
                  "postconditions (last-wins + frame + dead-stays-dead)",
